@@ -88,11 +88,12 @@ Apis == {
   Api("alias-get",        "pathparam", "none",      "concat", "read",   TRUE,  4, TRUE,  FALSE),
   \* ProcessDeleteIndex (DELETE /elastic/{indexName}): only names present in the virtual-table list are deleted
   Api("index-delete",     "pathparam", "known",     "concat", "delete", FALSE, 2, FALSE, FALSE),
-  \* dashboards.go getDashboard / toggleFavorite: route parameter {dashboard-id}; DataPath + ".../dashboards/details/" + id + ".json";
-  \* NO check of the id at all (getDashboard also writes the file back through refreshFolderMetadata)
+  \* dashboards.go getDashboard: route parameter {dashboard-id}; DataPath + ".../dashboards/details/" + id + ".json" is read with
+  \* NO check of the id at all (the write-back through refreshFolderMetadata happens only for ids of the folder structure)
   Api("dashboard-get",    "pathparam", "none",      "concat", "read",   TRUE,  4, FALSE, TRUE),
-  Api("dashboard-fav",    "pathparam", "none",      "concat", "write",  TRUE,  4, FALSE, TRUE),
-  \* updateDashboard / deleteDashboard: id from the JSON body / route; must be a key of the folder structure (server-generated uuids)
+  \* toggleFavorite / updateDashboard / deleteDashboard: id from the route / JSON body; must be a dashboard of the caller's folder
+  \* structure (server-generated uuids)
+  Api("dashboard-fav",    "pathparam", "known",     "concat", "write",  TRUE,  4, FALSE, TRUE),
   Api("dashboard-update", "body",      "known",     "concat", "write",  TRUE,  4, FALSE, TRUE),
   Api("dashboard-delete", "pathparam", "known",     "concat", "delete", TRUE,  4, FALSE, TRUE),
   \* folders.go: folder ids / parent ids are keys of folder_structure.json (deleting a folder removes the details files of the
